@@ -132,3 +132,24 @@ Print Assumptions C06_verbose_same_ast_expr.
 Print Assumptions C06_verbose_same_ast.
 Print Assumptions C06_capture_groups.
 Print Assumptions C06_string_language.
+
+(* NON-VACUITY (Proofs/NonVacuity.v, worlds W1 and W6p): C06_language applied to ["ab","ac"]
+   built with and without verbose mode: the two expressions have the same language. *)
+From Grex Require Proofs.NonVacuity.
+Theorem C06_nonvacuous : exists e1 s1 e2 s2,
+  NonVacuity.world_ok default_cfg NonVacuity.db1 SCPass1 NonVacuity.ws1 true e1 s1
+  /\ NonVacuity.world_ok NonVacuity.c_W6p NonVacuity.db_W6p SCPass1 NonVacuity.ws_W6p true e2 s2
+  /\ s1 <> s2
+  /\ (forall (lit cls : cp -> cp -> Prop) u, L_expr lit cls e1 u <-> L_expr lit cls e2 u).
+Proof.
+  pose proof NonVacuity.W1 as W. pose proof NonVacuity.W6p as W'. do 4 eexists.
+  split; [exact W|]. split; [exact W'|]. split; [discriminate|].
+  intros lit cls u.
+  exact (C06_language lit cls default_cfg NonVacuity.c_W6p NonVacuity.db1 SCPass1 SCPass1 NonVacuity.ws1 _ _
+           (conj (conj eq_refl (conj eq_refl (conj eq_refl (conj eq_refl (conj eq_refl (conj eq_refl eq_refl))))))
+                 (conj eq_refl (conj eq_refl eq_refl)))
+           (NonVacuity.w_nonempty _ _ _ _ _ _ _ W) (NonVacuity.w_oracle _ _ _ _ _ _ _ W)
+           (NonVacuity.w_no_merge _ _ _ _ _ _ _ W) (NonVacuity.w_expr _ _ _ _ _ _ _ W)
+           (NonVacuity.w_expr _ _ _ _ _ _ _ W') u (or_intror NonVacuity.W1_K4)).
+Qed.
+Print Assumptions C06_nonvacuous.
